@@ -50,7 +50,8 @@ def run(ctx):
     return parserprop.run_generic(
         ctx, "C02", "malformed-token-stream", pred, extra_doc,
         ["producer side (every block / inline rule pushes balanced, correctly levelled segments; delimiter pairs never cross) is not yet a theorem: it is carried by the pipeline correspondence and by the predicate evaluated on the implementation in this run (partial)"],
-        "correspondence and predicate on: seed corpus, mutations, container x leaf grammar, malformed stream, and delimiter pairs of every run length 1-5 inside and around links / images / emphasis / cells, images / links nested two and three deep with escapes, entities and pairs in the innermost description, delimiter soups (runs of * _ ~ brackets backticks links images in paragraph/heading/list/quote/table/link/image contexts) x standard and random configurations (rule subsets; rules2 all on)")
+        "correspondence and predicate on: seed corpus, mutations, container x leaf grammar, malformed stream, and delimiter pairs of every run length 1-5 inside and around links / images / emphasis / cells, images / links nested two and three deep with escapes, entities and pairs in the innermost description, delimiter soups (runs of * _ ~ brackets backticks links images in paragraph/heading/list/quote/table/link/image contexts) x standard and random configurations (rule subsets; rules2 all on)",
+        fixed_extra=docs.delim_run_family())
 
 
 def replay(body):
